@@ -62,6 +62,7 @@ type System struct {
 	scheduler         *scheduler.Scheduler                              // 调度器
 	status            int32                                             // 系统状态
 	statusLock        sync.Mutex                                        // 系统状态锁
+	startLock         sync.Mutex                                        // 启动过程锁：Stop 等待进行中的 Start 完成后才开始终止
 	clusterContext    *cluster.Context                                  // 集群上下文
 	cancel            context.CancelFunc                                // 上下文停止函数
 }
@@ -121,6 +122,10 @@ func (s *System) Start() error {
 			return vivid.ErrorActorSystemAlreadyStopped
 		default:
 			s.status = start
+			// 与 Start 并发的 Stop 可能恰好在状态已置为 start、根 Actor 尚未创建时到来：它看不到任何需要终止的东西便
+			// "成功"返回，而随后创建的根 Actor、远程服务等将在一个已停止的系统中继续运行，再也无法被停止。
+			// 启动过程持有 startLock（在状态锁内取得，使两者之间没有空隙），stop 在终止前先等待其释放。
+			s.startLock.Lock()
 			return nil
 		}
 	}(s)
@@ -136,6 +141,7 @@ func (s *System) Start() error {
 		Append(systemChains.initializeRemoting(s)).
 		Append(systemChains.initializeCluster(s)).
 		Run()
+	s.startLock.Unlock()
 
 	if startErr != nil {
 		s.Logger().Error("actor system start failed", log.Any("err", startErr))
@@ -180,6 +186,10 @@ func (s *System) stop(checkLog bool, timeout ...time.Duration) error {
 	if stateError != nil {
 		return stateError
 	}
+
+	// 等待进行中的 Start 完成，参见 Start 中的说明
+	s.startLock.Lock()
+	s.startLock.Unlock()
 
 	// 优先离开集群（未启用集群时 clusterContext 为 nil）
 	if s.clusterContext != nil {
